@@ -77,6 +77,17 @@ def run(rep: common.Report, tier: str, seed: int):
         d = gen_tcfg(rng)
         with pgm.quiet():
             G = pgm.make_compiler(d)
+        if rng.random() < 0.3:
+            # the settings are public attributes: a compiler built with other settings, used once, then re-set to d
+            import math
+            d0 = gen_tcfg(rng)
+            with pgm.quiet():
+                G = pgm.make_compiler(d0)
+            _ = (G.transform_points(np.float32(0.5), np.float32(-0.25), np.float32(0.1)), G.t_matrix, G.neff)
+            G.shift_origin, G.flip_x, G.flip_y = d['shift_origin'], d['flip_x'], d['flip_y']
+            G.n_glass, G.n_environment = d['n_glass'], d['n_environment']
+            G.rotation_angle = math.radians(d['rotation_angle'] % 360) if d['rotation_angle'] else 0.0
+            hist['site']['re-set compiler'] = hist['site'].get('re-set compiler', 0) + 1
         shape = rng.choice(['scalar', 'one', 'n', 'n', 'float64'])
         hist['shape'][shape] = hist['shape'].get(shape, 0) + 1
         if shape == 'scalar':
